@@ -68,8 +68,9 @@ def from_nested(node):
     return out
 
 
-def project_inst(inst, schema):
-    """model instance -> abstract instance {cls, els, mem}"""
+def project_inst(inst, schema, extra=False):
+    """model instance -> abstract instance {cls, els, mem}; with extra also the attributes the instance carries
+    that its class does not declare (C16: TRNUID / CLTCOOKIE stapled onto statements)"""
     from ofxtools.models.base import Aggregate
     cls = type(inst).__name__
     els = []
@@ -78,8 +79,13 @@ def project_inst(inst, schema):
             v = getattr(inst, a["a"])
             if v is None:
                 continue
-            els.append([a["a"], project_inst(v, schema) if isinstance(v, Aggregate) else tc.project(v)])
-    mem = [project_inst(m, schema) if isinstance(m, Aggregate) else tc.project(m) for m in inst]
+            els.append([a["a"], project_inst(v, schema, extra) if isinstance(v, Aggregate) else tc.project(v)])
+    mem = [project_inst(m, schema, extra) if isinstance(m, Aggregate) else tc.project(m) for m in inst]
+    if extra:
+        declared = {a["a"] for a in schema[cls]["attrs"]}
+        xs = [[k, {"set": v is not None, "v": tc.project(v) if v is not None and not isinstance(v, Aggregate) else tc.project("")}]
+              for k, v in sorted(vars(inst).items()) if k not in declared]
+        return {"cls": cls, "els": els, "mem": mem, "extra": xs}
     return {"cls": cls, "els": els, "mem": mem}
 
 
